@@ -13,6 +13,7 @@ import toolz
 from dask.dataframe.core import is_dataframe_like, is_index_like, is_series_like
 from dask.utils import funcname, import_required, is_arraylike
 
+from dask_expr import _verif
 from dask_expr._util import _BackendData, _tokenize_deterministic
 
 if TYPE_CHECKING:
@@ -56,9 +57,13 @@ class Expr:
         inst.operands = [_unpack_collections(o) for o in operands]
         _name = inst._name
         if _name in Expr._instances:
+            if _verif.ENABLED:
+                _verif.emit("instance", hit=True, name=_name, new=inst, found=Expr._instances[_name])
             return Expr._instances[_name]
 
         Expr._instances[_name] = inst
+        if _verif.ENABLED:
+            _verif.emit("instance", hit=False, name=_name, new=inst, found=inst)
         return inst
 
     def _tune_down(self):
@@ -325,6 +330,8 @@ class Expr:
             if not isinstance(out, Expr):
                 return out
             if out._name != expr._name:
+                if _verif.ENABLED:
+                    _verif.emit("rewrite", how="down", owner=type(expr).__name__, before=expr, after=out)
                 expr = out
 
             # Allow children to simplify their parents
@@ -336,6 +343,8 @@ class Expr:
                 if not isinstance(out, Expr):
                     return out
                 if out is not expr and out._name != expr._name:
+                    if _verif.ENABLED:
+                        _verif.emit("rewrite", how="up", owner=type(child).__name__, parent=type(expr).__name__, before=expr, after=out)
                     expr = out
                     break
 
@@ -369,6 +378,8 @@ class Expr:
         while True:
             dependents = collect_dependents(expr)
             new = expr.simplify_once(dependents=dependents, simplified={})
+            if _verif.ENABLED:
+                _verif.emit("simplify_pass", before=expr, after=new, changed=new._name != expr._name)
             if new._name == expr._name:
                 break
             if new._name in seen:
@@ -434,6 +445,8 @@ class Expr:
         expr = self
         while True:
             new = expr.lower_once()
+            if _verif.ENABLED:
+                _verif.emit("lower_pass", before=expr, after=new, changed=new._name != expr._name)
             if new._name == expr._name:
                 break
             expr = new
